@@ -27,7 +27,7 @@ import SkVerif.Model.FH
 import SkVerif.Model.Split
 namespace SkVerif.Reduce
 
-inductive Err | value | type | notimpl | assert | index | attr
+inductive Err | value | type | notimpl | assert | index | attr | other
   deriving DecidableEq, Repr
 
 /-- the three things the code does with a value besides moving it -/
@@ -418,26 +418,34 @@ first stored label (`off ≤ old.length`: overlapping or directly continuing) -/
 def mergeAt {β : Type} (pick : β → β → β) (off : Nat) (old new : List β) : List β :=
   old.take off ++ mergeTail pick (old.drop off) new
 
-/-- `update(y_new, X_new, update_params)` for a contiguous batch whose first label is `u0`
+/-- `_update_y_X(y_new, X_new)` for a contiguous batch whose first label is `u0`
 (`t0 ≤ u0 ≤ t0 + len`: it re-states stored observations and/or continues the series).
 The cutoff moves to the batch's last label — also when that lies before the end of what is stored. -/
+def updateMerge (V : Vals α) (fc : Fc α) (u0 : Int) (yNew : List α) (XNew : Option (List (List α))) : Fc α :=
+  if yNew.isEmpty then fc
+  else
+    let off := (u0 - fc.t0).toNat
+    { fc with y := mergeAt (pickNew V) off fc.y yNew, cutoff := u0 + yNew.length - 1,
+              X := match fc.X, XNew with
+                | some a, some b => some (mergeAt (List.zipWith (pickNew V)) off a b)
+                | a, _ => a }
+
+/-- `update(y_new, X_new, update_params)` -/
 def update (V : Vals α) (R : Regressor α) (fc : Fc α) (u0 : Int) (yNew : List α) (XNew : Option (List (List α)))
     (refit : Bool) : Except Err (Fc α × List (Call α)) :=
   -- `check_y_X(y, X, allow_empty=True)` still calls `check_X(X)` with allow_empty=False
   if yNew.isEmpty && XNew.isSome then .error .value else
-  let fc1 : Fc α :=
-    if yNew.isEmpty then fc
-    else
-      let off := (u0 - fc.t0).toNat
-      { fc with y := mergeAt (pickNew V) off fc.y yNew, cutoff := u0 + yNew.length - 1,
-                X := match fc.X, XNew with
-                  | some a, some b => some (mergeAt (List.zipWith (pickNew V)) off a b)
-                  | a, _ => a }
+  let fc1 := updateMerge V fc u0 yNew XNew
   if refit then
     match fc1.fh with
     | none => .error .value                                                -- `self.fh` property
     | some fh => fit V R fc1 fc1.t0 fc1.y fc1.X (some fh)
   else .ok (fc1, [])
+
+/-- what a FAILED `update` leaves behind: input validation fails before anything is stored; the refit
+fails (no horizon) after `_update_y_X` has already merged the data and moved the cutoff -/
+def updateFailed (V : Vals α) (fc : Fc α) (u0 : Int) (yNew : List α) (XNew : Option (List (List α))) : Fc α :=
+  if yNew.isEmpty && XNew.isSome then fc else updateMerge V fc u0 yNew XNew
 
 /-- `_predict(fh, X)` of `_BaseWindowForecaster` for a relative horizon → (predict calls, forecast as (label, value) list) -/
 def predictCore (V : Vals α) (fc : Fc α) (fh : List Int) (Xp : Option (List (List α))) :
@@ -463,39 +471,66 @@ def predict (V : Vals α) (fc : Fc α) (fh : Option (List Int)) (Xp : Option (Li
   | none => .error .value
   | some fh => predictCore V fc fh Xp
 
+/-- how many `regressor.predict` calls may still succeed before the recording regressor raises
+(`none` = it never raises); the failing call itself is not recorded and later calls succeed again -/
+abbrev Budget := Option Nat
+
+/-- a prediction loop interrupted by the regressor raising on one of its calls: the loops keep no state
+outside their local arrays, so the interrupted run is the prefix of the calls it would have made -/
+def limitCalls (b : Budget) (calls : List (Call α)) : Budget × List (Call α) × Bool :=
+  match b with
+  | none => (none, calls, false)
+  | some k => if calls.length ≤ k then (some (k - calls.length), calls, false) else (none, calls.take k, true)
+
+/-- `_predict(fh, X)` with a regressor that may raise (RuntimeError → `Err.other`) -/
+def predictCoreB (V : Vals α) (fc : Fc α) (fh : List Int) (Xp : Option (List (List α))) (b : Budget) :
+    Budget × List (Call α) × Except Err (List (Int × α)) :=
+  match predictCore V fc fh Xp with
+  | .error e => (b, [], .error e)
+  | .ok (calls, out) =>
+    let r := limitCalls b calls
+    (r.1, r.2.1, if r.2.2 then .error .other else .ok out)
+
 /-- loop of `_predict_moving_cutoff`: for every training window of the splitter,
-`update(y.iloc[window], None, update_params)` then `_predict(fh, None)` -/
-def updatePredictLoop (V : Vals α) (R : Regressor α) (fh : List Int) (u0 : Int) (yNew : List α) (refit : Bool) :
-    List Split.Fold → Fc α → List (Call α) × Except Err (Fc α)
-  | [], fc => ([], .ok fc)
-  | fold :: rest, fc =>
+`_update_predict_single(y.iloc[window], fh, X, update_params)` = (X given → NotImplementedError)
+`update(y_new, None, update_params)` then `_predict(fh, None)`.
+Returns the forecaster AS IT IS when the loop ends or is left by an exception. -/
+def updatePredictLoop (V : Vals α) (R : Regressor α) (fh : List Int) (u0 : Int) (yNew : List α)
+    (Xup : Option (List (List α))) (refit : Bool) :
+    List Split.Fold → Budget → Fc α → Budget × List (Call α) × Fc α × Option Err
+  | [], b, fc => (b, [], fc, none)
+  | fold :: rest, b, fc =>
+    if Xup.isSome then (b, [], fc, some .notimpl) else
     let a := (fold.1.head?.getD 0).toNat
     let block := (yNew.drop a).take fold.1.length                          -- y.iloc[new_window]
     match update V R fc (u0 + (a : Int)) block none refit with
-    | .error e => ([], .error e)
+    | .error e => (b, [], updateFailed V fc (u0 + (a : Int)) block none, some e)
     | .ok (fc1, c1) =>
-      match predictCore V fc1 fh none with
-      | .error e => (c1, .error e)
-      | .ok (c2, _) =>
-        let r := updatePredictLoop V R fh u0 yNew refit rest fc1
-        (c1 ++ c2 ++ r.1, r.2)
+      match predictCoreB V fc1 fh none b with
+      | (b1, c2, .error e) => (b1, c1 ++ c2, fc1, some e)
+      | (b1, c2, .ok _) =>
+        let r := updatePredictLoop V R fh u0 yNew Xup refit rest b1 fc1
+        (r.1, c1 ++ c2 ++ r.2.1, r.2.2.1, r.2.2.2)
 
-/-- `update_predict(y_new, cv=None, X=None, update_params)` of `_BaseWindowForecaster` (default
+/-- `update_predict(y_new, cv=None, X=Xup, update_params)` of `_BaseWindowForecaster` (default
 `SlidingWindowSplitter(fh, window_length_, start_with_window=False)`): the cutoff is moved to just
-before the new data, every growing/sliding window is fed through update + predict, and afterwards the
-cutoff is RESTORED while the remembered series keeps everything that was fed.
-Returns the regressor calls and the forecaster left behind (the returned frame is not modelled). -/
-def updatePredict (V : Vals α) (R : Regressor α) (fc : Fc α) (u0 : Int) (yNew : List α) (refit : Bool) :
-    List (Call α) × Except Err (Fc α) :=
+before the new data, every growing/sliding window is fed through update + predict, and afterwards —
+ALSO when the loop is left by an exception (`_detached_cutoff` restores in a `finally`) — the cutoff is
+RESTORED while the remembered series keeps everything that was fed.
+Returns the remaining budget, the regressor calls, the forecaster left behind and the error, if any
+(the returned frame is not modelled). -/
+def updatePredict (V : Vals α) (R : Regressor α) (fc : Fc α) (u0 : Int) (yNew : List α)
+    (Xup : Option (List (List α))) (refit : Bool) (b : Budget) :
+    Budget × List (Call α) × Fc α × Option Err :=
   match fc.fh with
-  | none => ([], .error .value)
+  | none => (b, [], fc, some .value)
   | some fh =>
-    if yNew.isEmpty then ([], .error .index) else                          -- `y.index[0]` of empty new data
+    if yNew.isEmpty then (b, [], fc, some .index) else                     -- `y.index[0]` of empty new data
     match Split.windowSplit .sliding yNew.length fh ((fc.wl_.getD 0 : Nat) : Int) 1 none false with
-    | .error _ => ([], .error .value)
+    | .error _ => (b, [], fc, some .value)
     | .ok folds =>
-      let r := updatePredictLoop V R fh u0 yNew refit folds { fc with cutoff := u0 - 1 }
-      (r.1, r.2.map fun fc' => { fc' with cutoff := fc.cutoff })
+      let r := updatePredictLoop V R fh u0 yNew Xup refit folds b { fc with cutoff := u0 - 1 }
+      (r.1, r.2.1, { r.2.2.1 with cutoff := fc.cutoff }, r.2.2.2)
 
 /-- stage at which a history stopped -/
 inductive Stage | fit | update | predict
@@ -525,13 +560,90 @@ def run (V : Vals α) (R : Regressor α) (s : Strategy) (sci : Scitype) (wl : WL
         match update V R fc1 u0 yn xn refit with
         | .error e => ([], .error e)
         | .ok (fc2, c2) => (c2, .ok fc2)
-      | .updPredict u0 yn refit => updatePredict V R fc1 u0 yn refit
+      | .updPredict u0 yn refit =>
+        match updatePredict V R fc1 u0 yn none refit none with
+        | (_, c2, _, some e) => (c2, .error e)
+        | (_, c2, fc2, none) => (c2, .ok fc2)
     match u with
     | (c2, .error e) => (c1 ++ c2, .error (e, .update))
     | (c2, .ok fc2) =>
       match predict V fc2 fhPred Xp with
       | .error e => (c1 ++ c2, .error (e, .predict))
       | .ok (c3, out) => (c1 ++ c2 ++ c3, .ok out)
+
+/-! ### general histories: every construction path, operations that fail and are followed by others -/
+
+/-- the public ways to build a reducer -/
+inductive Via
+  | make                            -- make_reduction(estimator, strategy, window_length, scitype)
+  | cls                             -- Direct/Recursive/Multioutput/DirRec × Tabular/TimeSeries RegressionForecaster(estimator, window_length, step_length)
+  | reducedForecaster               -- deprecated ReducedForecaster(estimator, scitype, strategy, window_length, step_length)
+  | reducedRegressionForecaster     -- deprecated ReducedRegressionForecaster(…)
+  deriving DecidableEq, Repr
+
+/-- construction: which `step_length` the forecaster ends up with (the deprecated factories refuse ≠ 1) -/
+def construct (via : Via) (step : Int) : Except Err Int :=
+  match via with
+  | .make => .ok 1
+  | .cls => .ok step
+  | .reducedForecaster => if step = 1 then .ok 1 else .error .value
+  | .reducedRegressionForecaster => if step = 1 then .ok 1 else .error .value
+
+inductive Op (α : Type)
+  | update (u0 : Int) (y : List α) (X : Option (List (List α))) (refit : Bool)
+  | updPredict (u0 : Int) (y : List α) (Xup : Option (List (List α))) (refit : Bool)
+  | predict (fh : Option (List Int)) (Xp : Option (List (List α)))
+
+inductive OpRes (α : Type)
+  | ok
+  | forecast (out : List (Int × α))
+  | err (e : Err)
+
+/-- one operation on a fitted forecaster; a failed operation leaves the state the code's ordering leaves -/
+def stepOp (V : Vals α) (R : Regressor α) (fc : Fc α) (b : Budget) : Op α → Fc α × Budget × List (Call α) × OpRes α
+  | .update u0 y X refit =>
+    match update V R fc u0 y X refit with
+    | .ok (fc2, c) => (fc2, b, c, .ok)
+    | .error e => (updateFailed V fc u0 y X, b, [], .err e)
+  | .updPredict u0 y Xup refit =>
+    match updatePredict V R fc u0 y Xup refit b with
+    | (b2, c, fc2, none) => (fc2, b2, c, .ok)
+    | (b2, c, fc2, some e) => (fc2, b2, c, .err e)
+  | .predict fh Xp =>
+    match setFh (requiredFh fc.strategy) fc.fitted fc.fh fh with
+    | .error e => (fc, b, [], .err e)
+    | .ok fh' =>
+      let fc1 := { fc with fh := fh' }            -- the optional-horizon mixin has stored the new horizon by now
+      match fh' with
+      | none => (fc1, b, [], .err .value)
+      | some f =>
+        match predictCoreB V fc1 f Xp b with
+        | (b2, c, .ok out) => (fc1, b2, c, .forecast out)
+        | (b2, c, .error e) => (fc1, b2, c, .err e)
+
+def runOps (V : Vals α) (R : Regressor α) : Fc α → Budget → List (Op α) → List (Call α) × List (OpRes α)
+  | _, _, [] => ([], [])
+  | fc, b, op :: ops =>
+    let r := stepOp V R fc b op
+    let rest := runOps V R r.1 r.2.1 ops
+    (r.2.2.1 ++ rest.1, r.2.2.2 :: rest.2)
+
+/-- construct through `via`, `fit(y, X, fhFit)`, then the operations one after the other — continuing after
+an operation that raised.  (`check_step_length` runs in `fit` after `_set_y_X`/`_set_fh`, which can only
+fail with ValueError as well, so it is checked first here.) -/
+def runHist (V : Vals α) (R : Regressor α) (via : Via) (step : Int) (s : Strategy) (sci : Scitype) (wl : WLRaw)
+    (t0 : Int) (y : List α) (X : Option (List (List α))) (fhFit : Option (List Int)) (b : Budget)
+    (ops : List (Op α)) : List (Call α) × Except Err (List (OpRes α)) :=
+  match construct via step with
+  | .error e => ([], .error e)
+  | .ok st =>
+    if st < 1 then ([], .error .value)
+    else
+      match fit V R { strategy := s, sci := sci, wlRaw := wl } t0 y X fhFit with
+      | .error e => ([], .error e)
+      | .ok (fc1, c1) =>
+        let r := runOps V R fc1 b ops
+        (c1 ++ r.1, .ok r.2)
 
 end
 end SkVerif.Reduce
